@@ -35,7 +35,7 @@ CHECKS = {
          "Every string goes through parse::<Rank|Suit|Card|CardPair|HandRangeToken|HandRange>; every Ok value is formatted, expanded, decomposed and handed to the evaluator. Quick: all strings of length <= 3 over a 30-symbol alphabet (with 2/3/4-byte characters and NUL), all 146,523 strings of the seven token shapes with arbitrary ranks, every well-formed token with a multi-byte character at every offset, random strings, comma lists, strings up to 8 MiB, letters in the other case, lists expanding to far more than 65536 entries, weight literals of up to 5000 digits; a dev-profile batch repeats a slice of all of it in child processes. Thorough: length <= 4 and weights on every shape string.",
          TRUST + " 'All strings over Unicode' is sampled beyond the enumerated sets.", "DESIGN.md §4 C09"),
  "C10": ("online invariant monitor on every combo of every parsed token/range and on showdowns enumerated from parsed ranges",
-         "Every Ok result of the token and range parsers is checked for two different cards and a weight in [0,1]; showdowns enumerated from the parsed range (alone and against itself) for probability in [0,1] and distinct cards. Strings: all 22,222 weight literals [01](.d{1,4})? and about 120 other float spellings (signs, exponents, inf/nan, bare dots, separators, hex, other scripts) on each of the seven token shapes, all 52x52 two-card strings, shape strings with arbitrary ranks and weights, random strings and lists, letters in the other case, weight literals of up to 5000 digits.",
+         "Every Ok result of the token and range parsers is checked for two different cards and a weight in [0,1]; showdowns enumerated from the parsed range (alone and against itself) for probability in [0,1] and distinct cards. Strings: all 22,222 weight literals [01](.d{1,4})? about 120 other float spellings (signs, exponents, inf/nan, bare dots, separators, hex, other scripts) and every string of up to four characters over 015.e-+x on each of the seven token shapes, all 52x52 two-card strings, shape strings with arbitrary ranks and weights, random strings and lists, letters in the other case, weight literals of up to 5000 digits.",
          TRUST + " Any answer that keeps the invariant is accepted (reject, drop, or valid weight).", "DESIGN.md §4 C10"),
  "C11": ("metamorphic runtime monitor: integer win/tie tallies of complete equity loops compared under all 24 suit permutations and all player orders",
          "The README equity loop is run on the real evaluator for a configuration and for each transformed configuration; the k-way win tallies must be identical (permuted with the players); every showdown must have flagged winners == winner_len() >= 1. Quick: 14 configurations (2-4 players, suit-specific combos, weights) x (23 relabellings + all player orders + combinations), 17- and 20-seat tables, notation-built ranges naming combos in both card orders, configurations with an empty seat, and a share of the transformed runs evaluated in lockstep with the original on one thread.",
@@ -49,11 +49,11 @@ CHECKS = {
  "C14": ("exhaustive runtime oracle over all ordered card pairs",
          "All 2652 ordered pairs of distinct cards run through CardPair::new/Eq/Hash/Index/Display/FromStr and a HashMap and HandRange filled in both orders; exhaustive over the property's domain.",
          "Trusts std's DefaultHasher and the fxhash crate as the two hashers named by the property.", "DESIGN.md §4 C14"),
- "C15": ("schedule-driven interleaving monitor (solo vs interleaved traces), threaded stress workload with injected delays, Miri (UB/data-race interpreter) over several scheduler seeds, ThreadSanitizer (thorough), Send+Sync compile probe",
-         "Each evaluator's complete showdown trace under 2,000 (quick) / 50,000 (thorough) seeded single-thread schedules over 2-12 live evaluators (including iterators abandoned midway and restarted, twins built from the same combos in another insertion order, siblings with the same ranges on another flop, and evaluators built from one Vec<HandRange> overwritten in place) equals its solo trace; the threaded binary drains one evaluator per thread (2-32 threads, barrier start, yields/sleeps between next() calls, iterators handed over mid-way, showdowns/ranges read through Arc on other threads) natively, under Miri with 3 (quick) / 24 (thorough) scheduler seeds, and under ThreadSanitizer (thorough); the Send+Sync probe must compile.",
+ "C15": ("schedule-driven interleaving monitor (solo vs interleaved traces), fresh-process probe (alone vs after other evaluators), threaded stress workload with injected delays, Miri (UB/data-race interpreter) over several scheduler seeds, ThreadSanitizer (thorough), Send+Sync compile probe",
+         "Each evaluator's complete showdown trace under 2,000 (quick) / 50,000 (thorough) seeded single-thread schedules over 2-12 live evaluators (including iterators abandoned midway and restarted, twins built from the same combos in another insertion order, siblings with the same ranges on another flop, and evaluators built from one Vec<HandRange> overwritten in place) equals its solo trace; the threaded binary drains one evaluator per thread (2-32 threads, barrier start, yields/sleeps between next() calls, iterators handed over mid-way, showdowns/ranges read through Arc on other threads) natively, under Miri with 3 (quick) / 24 (thorough) scheduler seeds, and under ThreadSanitizer (thorough); the Send+Sync probe must compile; six evaluators (ordinary, with an empty seat, with weights 0) are also run in fresh child processes - alone, after an evaluator with an empty seat, after an ordinary one - and must answer as in the check's own process.",
          TRUST + " OS schedules are sampled; Miri/TSan/cargo failures other than a UB/race report are inconclusive.", "DESIGN.md §4 C15"),
  "C16": ("exhaustive runtime oracle over worker counts (list validity) plus end-to-end scoped runs summed against the single run",
-         "calculate_scopes(n), compiled from the example's own source, is checked for every n in 1..=4096 (quick) / 1..=32768 (thorough) and 65 seeded n up to 2^22: n scopes, starts at (0,1), ends at (48,49), contiguous, never backwards, only valid positions; for n in 1..=64 (and every flagged n) one real scoped evaluator per scope is run and the sums compared with the single run; the real example program is built and run under taskset with 2..16 CPUs (1..15 workers) and its materialized total and per-hand equities are compared with one evaluator; n around 2^24 and up to 2^25 and a dev-profile pass cover the f32 and debug-assertion corners.",
+         "calculate_scopes(n), compiled from the example's own source, is checked for every n in 1..=4096 (quick) / 1..=32768 (thorough) and 65 seeded n up to 2^22: n scopes, starts at (0,1), ends at (48,49), contiguous, never backwards, only valid positions; for n in 1..=64 (and every flagged n) one real scoped evaluator per scope is run and the sums compared with the single run; the real example program is built and run under taskset with 2..16 CPUs (1..15 workers) and its materialized total and per-hand equities are compared with one evaluator; n around 2^24 and up to 2^25 and a dev-profile pass (list validity for n up to 1024 and the per-scope sums for n up to 96 with the evaluator's debug assertions live) cover the f32 and debug-assertion corners.",
          TRUST + " 'All n >= 1' is cut at 2^22.", "DESIGN.md §4 C16"),
  "C17": ("online structural monitor of the emitted text (strict notation reader + maximal-run oracle R4) and history-independence monitor over construction histories",
          "Every formatted range is read back token by token: rank-pair tokens must be exactly the maximal equal-weight runs in canonical order, followed only by single combos equal to the leftovers; a share of the contents is rebuilt along up to 13 histories (shuffled/reversed collect, overwrites, rebuilt from a larger range, swapped cards, clone, parse of own text/permuted tokens/all-single-combo text) and must print identically, also right after a formatter call whose writer failed midway; a neighbour range (one weight moved by one ulp) that the library calls == must print alike; contents with zeros of both signs are compared across histories bit for bit. Quick: all row-window patterns, 150k sampled full rows, in-rank-pair patterns, random ranges; thorough: every full-length row pattern.",
